@@ -10,7 +10,7 @@ from rules.c10 import fold
 from rules.c03 import sites, closure_ret
 from rules.c16 import family_signature
 from rules import c19
-from mirq.paths import Paths, Unsupported, CONTINUES, ptr_root, show_fact
+from mirq.paths import Paths, Unsupported, CONTINUES, is_continues, ptr_root, show_fact
 from mirq.origin import subst
 
 PRIM = "embedded_graphics::primitives::"
@@ -56,7 +56,7 @@ def search_acceptance(prog, f):
     for sm in summs:
         if sm.ret is None or sm.ret[0] != "agg" or not str(sm.ret[1]).endswith("Option::Some"):
             continue
-        if any(n == CONTINUES for x in [sm.ret] + [y for fct in sm.facts for y in fct[1:] if isinstance(y, tuple)] for n in walk(x)):
+        if any(is_continues(n) for x in [sm.ret] + [y for fct in sm.facts for y in fct[1:] if isinstance(y, tuple)] for n in walk(x)):
             continue
         items = [fct[1] for fct in sm.facts if fct[0] == "variant" and fct[2] == ("Some",) and fct[1][0] == "call" and fct[1][1].split("::")[-1] in ("next", "next_back")]
         out.append((("payload", items[-1]) if items else None, list(sm.facts), sm.ret[2][0]))
@@ -417,7 +417,7 @@ def rows_without_hit(prog, rep):
                 if not took:
                     continue
                 n += 1
-                if sm.ret == ("agg", "core::option::Option::None", ()) and not any(x == CONTINUES for fct in sm.facts for y in fct[1:] if isinstance(y, tuple) for x in walk(y)):
+                if sm.ret == ("agg", "core::option::Option::None", ()) and not any(is_continues(x) for fct in sm.facts for y in fct[1:] if isinstance(y, tuple) for x in walk(y)):
                     bad.append("after taking a row the enumeration ends when %s" % "; ".join(show_fact(x) for x in sm.facts if x not in took))
         except Unsupported as e:
             bad.append("cannot summarise: %s" % e)
